@@ -250,32 +250,62 @@ func checkMsg(m *dns.Msg) {
 }
 
 func checkSignVerify(r *Rng) {
-	pub, priv, _ := ed25519.GenerateKey(nil)
-	_ = pub
+	_, priv, _ := ed25519.GenerateKey(nil)
 	key := &dns.DNSKEY{Hdr: dns.RR_Header{Name: "example.org.", Rrtype: dns.TypeDNSKEY, Class: 1, Ttl: 3600}, Flags: 257, Protocol: 3, Algorithm: dns.ED25519}
 	key.PublicKey = toB64(priv.Public().(ed25519.PublicKey))
-	rrset := []dns.RR{
-		&dns.MX{Hdr: dns.RR_Header{Name: "Example.ORG.", Rrtype: dns.TypeMX, Class: 1, Ttl: 300}, Preference: 10, Mx: "Mail.Example.org."},
-		&dns.MX{Hdr: dns.RR_Header{Name: "example.org.", Rrtype: dns.TypeMX, Class: 1, Ttl: 200}, Preference: 20, Mx: "MAIL2.example.org."},
-	}
-	snap := func() string {
-		var s []string
-		for _, rr := range rrset {
-			s = append(s, text(rr))
+	// every combination of: owner already lower case or not, TTLs equal to the original TTL or
+	// not, wildcard owner or not, record type with / without embedded names
+	for _, owner := range []string{"example.org.", "Example.ORG.", "*.example.org.", "*.Example.org."} {
+		for _, ttls := range [][2]uint32{{300, 300}, {300, 200}} {
+			for _, mk := range []func(h dns.RR_Header, i int) dns.RR{
+				func(h dns.RR_Header, i int) dns.RR {
+					h.Rrtype = dns.TypeMX
+					return &dns.MX{Hdr: h, Preference: uint16(10 * (i + 1)), Mx: []string{"Mail.Example.org.", "BACKUP.example.ORG."}[i]}
+				},
+				func(h dns.RR_Header, i int) dns.RR {
+					h.Rrtype = dns.TypeSOA
+					return &dns.SOA{Hdr: h, Ns: "NS.Example.org.", Mbox: "Host\\.Master.example.org.", Serial: uint32(i + 1)}
+				},
+				func(h dns.RR_Header, i int) dns.RR {
+					h.Rrtype = dns.TypeTXT
+					return &dns.TXT{Hdr: h, Txt: []string{"Mixed Case", string(rune('a' + i))}}
+				},
+				func(h dns.RR_Header, i int) dns.RR {
+					h.Rrtype = dns.TypeSRV
+					return &dns.SRV{Hdr: h, Priority: 1, Weight: 2, Port: uint16(i + 1), Target: "SIP.Example.org."}
+				},
+			} {
+				rrset := []dns.RR{
+					mk(dns.RR_Header{Name: owner, Class: 1, Ttl: ttls[0]}, 0),
+					mk(dns.RR_Header{Name: owner, Class: 1, Ttl: ttls[1]}, 1),
+				}
+				snap := func() string {
+					var s []string
+					for _, rr := range rrset {
+						c := dns.Copy(rr)
+						c.Header().Rdlength = 0 // RDLENGTH bookkeeping is allowed to change
+						s = append(s, text(c))
+					}
+					kc := dns.Copy(key)
+					kc.Header().Rdlength = 0
+					return strings.Join(s, ";") + text(kc)
+				}
+				before := snap()
+				sig := &dns.RRSIG{KeyTag: key.KeyTag(), SignerName: "example.org.", Algorithm: dns.ED25519, Inception: 1700000000, Expiration: 1800000000}
+				if err := sig.Sign(priv, rrset); err != nil {
+					continue
+				}
+				st["sign_verify_checked"]++
+				if snap() != before {
+					Viol("C16/readonly-mutates/Sign", "RRSIG.Sign changed the RRset or key", map[string]string{"before": before, "after": snap()})
+					before = snap()
+				}
+				_ = sig.Verify(key, rrset)
+				if snap() != before {
+					Viol("C16/readonly-mutates/Verify", "RRSIG.Verify changed the RRset or key", map[string]string{"before": before, "after": snap()})
+				}
+			}
 		}
-		return strings.Join(s, ";") + text(key)
-	}
-	before := snap()
-	sig := &dns.RRSIG{KeyTag: key.KeyTag(), SignerName: "example.org.", Algorithm: dns.ED25519, Inception: 1700000000, Expiration: 1800000000}
-	if err := sig.Sign(priv, rrset); err == nil {
-		if snap() != before {
-			Viol("C16/readonly-mutates/Sign", "RRSIG.Sign changed the RRset or key", nil)
-		}
-		_ = sig.Verify(key, rrset)
-		if snap() != before {
-			Viol("C16/readonly-mutates/Verify", "RRSIG.Verify changed the RRset or key", nil)
-		}
-		st["sign_verify_checked"]++
 	}
 }
 
